@@ -9,6 +9,7 @@ import (
 	"math"
 	"os"
 	"testing"
+	"verif/harness/cborref"
 
 	"pgregory.net/rapid"
 	"verif/harness/ev"
@@ -253,4 +254,66 @@ func TestRegress(t *testing.T) {
 	for _, e := range fs {
 		replayFile(t, dir+"/"+e.Name())
 	}
+}
+
+// TestConcurrentPrograms: the events of a generated program are emitted from several goroutines at the
+// same time (zerolog's pools are all they share): every write is still exactly one well-formed item,
+// and the same items arrive as when the events are emitted one after the other.
+func TestConcurrentPrograms(t *testing.T) {
+	rapid.Check(t, func(rt *rapid.T) {
+		cfg := lp.DefaultCfg()
+		cfg.Binary = true
+		cfg.Tree = true
+		cfg.MaxOps = 5
+		g := lp.NewG(rt, cfg)
+		p := g.Program(4, 8)
+		norm(p)
+		for i := range p.Steps {
+			if p.Steps[i].Kind == "sample" && p.Steps[i].Sampler != "nil" {
+				p.Steps[i].Sampler = "all"
+			}
+			for k := range p.Steps[i].Hooks {
+				if w := p.Steps[i].Hooks[k].Wrap; w == "nilptr" || w == "nilfield" {
+					p.Steps[i].Hooks[k].Wrap = ""
+				}
+			}
+		}
+		if p.Set.StackMarshal == "pkgerrors" {
+			p.Set.StackMarshal = "frames" // real stack traces differ between the goroutine that emits alone and those that emit together
+		}
+		p.Order = nil
+		ng := rapid.IntRange(3, 8).Draw(rt, "G")
+		reps := rapid.IntRange(10, 60).Draw(rt, "reps")
+		seq := lp.RunConcurrent(p, 1, reps)
+		if seq.Panic != nil {
+			return
+		}
+		conc := lp.RunConcurrent(p, ng, reps)
+		b, _ := json.Marshal(p)
+		rec.Case(b, len(p.Events) >= 3, "concurrent-program", fmt.Sprintf("goroutines:%d", ng))
+		bad := ""
+		if conc.Panic != nil {
+			bad = fmt.Sprintf("a logging call panicked with %d goroutines building events at once: %v", ng, conc.Panic)
+		}
+		for d := 0; d < len(seq.Dests) && d < len(conc.Dests) && bad == ""; d++ {
+			want := map[string]int{}
+			for _, w := range seq.Dests[d] {
+				want[string(w.Data)]++
+			}
+			for _, w := range conc.Dests[d] {
+				if _, err := cborref.ParseExactly(w.Data); err != nil {
+					bad = fmt.Sprintf("with %d goroutines building events at once a write is not one well-formed item: %v: %x", ng, err, w.Data)
+					break
+				}
+				if want[string(w.Data)] == 0 {
+					bad = fmt.Sprintf("with %d goroutines building events at once destination %d received %x, which no event produces when they are emitted one after the other (or not that often)", ng, d, w.Data)
+					break
+				}
+				want[string(w.Data)]--
+			}
+		}
+		if bad != "" {
+			fail(rt, "concurrent", p, bad)
+		}
+	})
 }
